@@ -448,6 +448,33 @@ def run(ctx):
                                  'tx': txgen.tx_cases(big_counts=True, max_in=2, max_out=2)})
     ctx.run_given('tx_big_counts', big, prop_tx, ctx.scale(6, 60))
 
+    # script / witness item lengths on the 16-bit CompactSize boundary (65534, 65535, 65536): directed, few
+    @st.composite
+    def long_items(draw):
+        L = draw(st.sampled_from([65534, 65535, 65536, 65535, 0x10001]))
+        where = draw(st.sampled_from(['ss', 'spk', 'wit', 'wit_script']))
+        fill = draw(st.sampled_from(['ab', '00', 'ff', '4c']))
+        vin = {'prev': draw(st.binary(min_size=32, max_size=32)).hex(), 'n': draw(st.integers(0, 3)), 'ss': '',
+               'seq': 0xffffffff, 'wit': []}
+        vout = {'v': draw(st.integers(0, 10 ** 9)), 'spk': '0014' + 'cd' * 20}
+        if where == 'ss':
+            vin['ss'] = '4d' + (L - 3).to_bytes(2, 'little').hex() + fill * (L - 3)
+        elif where == 'spk':
+            vout['spk'] = '6a4d' + (L - 4).to_bytes(2, 'little').hex() + fill * (L - 4)
+        elif where == 'wit':
+            vin['wit'] = [fill * L, '51']
+        else:
+            vin['wit'] = ['01', '75' * (L - 1) + '51']
+        return {'kind': 'tx', 'strict': draw(st.booleans()), 'long': '%s=%d' % (where, L),
+                'tx': {'version': draw(st.sampled_from([1, 2])), 'locktime': 0, 'vin': [vin], 'vout': [vout]}}
+
+    def prop_long(case):
+        ctx.klass('tx.long_item.' + case['long'])
+        ctx.nt(('txlong', case['long'], case['strict'], case['tx']['vin'][0]['prev']))
+        check_tx(ctx, case)
+
+    ctx.run_given('tx_long_items', long_items(), prop_long, ctx.scale(4, 40))
+
     def prop_block(case):
         ctx.nt(('block', case['block']))
         ctx.klass('block.segwit_coinbase' if case['block']['txs'][0]['vin'][0]['wit'] else 'block.legacy_coinbase')
